@@ -231,6 +231,10 @@ int main(int argc, char **argv) {
     guard_init();
 #endif
     if (mc_replay) return do_replay();
+    { int light = 0; for (int i = 1; i < argc; i++) if (!strcmp(argv[i], "--light")) light = 1;
+      if (light) { static const int PL[] = { CP_LOCAL, CP_EMAIL, CP_CROSS, CP_DOMAIN, CP_BYTES, CP_SUBST, CP_POSN, CP_LABELLEN };
+          for (unsigned i = 0; i < sizeof PL / sizeof PL[0]; i++) { CURPH = PL[i]; char nm[72]; snprintf(nm, sizeof nm, "%.48s (N=%d)", corpus_name(CURPH), corpus_N(CURPH)); mc_parallel(nm, corpus_shards(CURPH), phase_shard, NULL); }
+          return mc_finish(); } }
     for (int ph = 0; ph < CP_N; ph++) { if (ph == CP_SCALARS && !mc_thorough) continue;   /* 1.1M code points x every entry point: thorough tier only (C03 sweeps them every time) */
         CURPH = ph; char nm[72]; snprintf(nm, sizeof nm, "%.48s (N=%d)", corpus_name(ph), corpus_N(ph)); mc_parallel(nm, corpus_shards(ph), phase_shard, NULL); }
     mc_parallel("api: every sequence of <= 4 set-ups over {822, 5321, 5322, 6531, invalid} x 8 addresses after each, eav_free, leak check", 625, api_shard, NULL);
